@@ -6,6 +6,7 @@ import (
 	"errors"
 	"fmt"
 	"sort"
+	"strings"
 	"sync"
 	"sync/atomic"
 	"time"
@@ -281,42 +282,74 @@ func c17Rate(t *tr.Writer, id int, c c17Case) {
 		}
 	}
 	Watch(id, tr.Rec{"kind": c.Kind}, c)
+	if c.Via == "io" {
+		maxtok = 600
+	}
 	t.Reset(id, tr.Rec{"kind": c.Kind, "ival": ival, "maxp": c.MaxP, "timeout": c.Timeout, "t0": t0, "t1": t1,
 		"maxtok": maxtok, "rate": c.Rate, "input": c})
 	var client *core.Client
+	var reqLen int64 // Via "io": the length of the request the limiter is about to charge for
+	if c.Via == "io" {
+		maxtok = 600
+		client = core.NewClient("verif://rate")
+		client.Use(core.IOHandler(func(ctx context.Context, request []byte, next core.NextIOHandler) ([]byte, error) {
+			atomic.StoreInt64(&reqLen, int64(len(request)))
+			return next(ctx, request)
+		}), core.IOHandler(lim.IOHandler), core.IOHandler(func(ctx context.Context, request []byte, next core.NextIOHandler) ([]byte, error) {
+			return miniResp("ok"), nil
+		}))
+	}
 	if c.Via == "invoke" {
 		client = core.NewClient("verif://rate")
 		client.Use(core.InvokeHandler(lim.InvokeHandler), core.InvokeHandler(func(ctx context.Context, name string, args []interface{}, next core.NextInvokeHandler) ([]interface{}, error) {
 			return []interface{}{"ok"}, nil
 		}))
 	}
-	acquire := func(n int) (int, int, string) {
+	acquireCtx := func(ctx context.Context, n int) (int, int, string) {
 		a := us()
 		var err error
-		if client != nil {
-			_, err = client.Invoke("f", nil)
+		if c.Via == "io" {
+			_, err = client.InvokeContext(ctx, "f", []interface{}{strings.Repeat("x", n)})
+		} else if client != nil {
+			_, err = client.InvokeContext(ctx, "f", nil)
 		} else {
-			err = lim.Acquire(context.Background(), n)
+			err = lim.Acquire(ctx, n)
 		}
 		b := us() + 1
 		res := "ok"
 		if err == core.ErrTimeout {
 			res = "timeout"
+		} else if err == context.Canceled || err == context.DeadlineExceeded {
+			res = "canceled"
 		} else if err != nil {
 			res = "other:" + err.Error()
 		}
 		return a, b, res
 	}
+	acquire := func(n int) (int, int, string) {
+		return acquireCtx(context.Background(), n)
+	}
 	if c.Kind == "rate" {
 		for _, op := range c.Ops {
 			Watch(id, tr.Rec{"kind": c.Kind}, c)
 			switch op.Op {
-			case "acquire":
+			case "acquire", "acquirec":
 				n := op.N
-				if client != nil {
+				if client != nil && c.Via != "io" {
 					n = 1
 				}
-				a, b, res := acquire(n)
+				ctx := context.Background()
+				if op.Op == "acquirec" {
+					// the caller gives up after op.Us microseconds: if it still waits then, it is not admitted
+					var cancel context.CancelFunc
+					ctx, cancel = context.WithCancel(ctx)
+					tm := time.AfterFunc(time.Duration(op.Us)*time.Microsecond, cancel)
+					defer tm.Stop()
+				}
+				a, b, res := acquireCtx(ctx, n)
+				if c.Via == "io" {
+					n = int(atomic.LoadInt64(&reqLen)) // what the limiter charges: the request's length
+				}
 				// cost and burst in microseconds, computed here (64-bit): at high rates a permit is a fraction
 				// of a microsecond and TLC's integers are 32-bit
 				t.Emit(tr.Rec{"ev": "acquire", "t0": a, "t1": b, "n": n, "res": res,
@@ -524,6 +557,36 @@ func runC17(a Args) tr.Summary {
 			via = "invoke"
 		}
 		cases = append(cases, c17Case{Kind: "rate", Rate: rate, MaxP: rng.Intn(4), Timeout: to, Ops: ops, Via: via})
+	}
+	// the limiter as IO handler: a request costs its length in permits; bursts smaller than a request
+	nIO := 6
+	if a.Tier == "thorough" {
+		nIO = 40
+	}
+	for i := 0; i < nIO; i++ {
+		rate := []int{20000, 50000, 100000}[i%3]
+		var ops []c17Op
+		for j := 0; j < 6; j++ {
+			ops = append(ops, c17Op{Op: "acquire", N: 20 + rng.Intn(200)})
+			if rng.Intn(4) == 0 {
+				ops = append(ops, c17Op{Op: "sleep", Us: rng.Intn(4000)})
+			}
+		}
+		cases = append(cases, c17Case{Kind: "rate", Rate: rate, MaxP: []int{0, 10, 50}[rng.Intn(3)], Timeout: 0, Ops: ops, Via: "io"})
+	}
+	// callers that give up while they wait
+	for i := 0; i < nIO; i++ {
+		rate := []int{100, 200, 500}[i%3]
+		ival := 1000000 / rate
+		var ops []c17Op
+		for j := 0; j < 8; j++ {
+			if rng.Intn(2) == 0 {
+				ops = append(ops, c17Op{Op: "acquirec", N: 1 + rng.Intn(2), Us: rng.Intn(ival)})
+			} else {
+				ops = append(ops, c17Op{Op: "acquire", N: 1})
+			}
+		}
+		cases = append(cases, c17Case{Kind: "rate", Rate: rate, MaxP: rng.Intn(2), Timeout: 0, Ops: ops, Via: []string{"acquire", "invoke"}[i%2]})
 	}
 	for i := 0; i < nRateConc; i++ {
 		cases = append(cases, c17Case{Kind: "rateconc", Rate: []int{500, 1000, 2000}[rng.Intn(3)], MaxP: rng.Intn(3), Procs: 8, N: 40 + rng.Intn(40)})
